@@ -539,6 +539,20 @@ Fixpoint spec_run (p : policy) (bd : body) (sc : list beh) (t : Z) (i : nat) (fu
 Definition spec_send (p : policy) (bd : body) (sc : list beh) (t : Z) : result * Z * list (Z * str) :=
   spec_run p bd sc t 0 (rt_fuel p).
 
+(* the stateless specification of auth.Client.Do (empty cache, token request spelled out) for
+   bodies that can always be replayed and a context that never ends: spec_send for the first
+   send, for the token request, and for the re-send on the rest of the registry's script *)
+Definition spec_auth (p : policy) (bd : body) (sc : list beh) (tb : body) (tsc : list beh)
+  : result * Z * list (Z * str) * list (Z * str) * list (Z * str) :=
+  let '(r1, t1, l1) := spec_send p bd sc 0 in
+  if challenged r1 then
+    let '(kr, kt, kl) := if bearer_challenged r1 then spec_send p tb tsc t1 else (r1, t1, []) in
+    if negb (bearer_challenged r1) || token_ok kr then
+      let '(r2, t2, l2) := spec_send p bd (skipn (length l1) sc) kt in
+      (r2, t2, l1, kl, l2)
+    else (token_error kr, kt, l1, kl, [])
+  else (r1, t1, l1, [], []).
+
 (* ------------------------------------------------------------------ *)
 (* Acceptor for observed exponential-backoff results (the jitter is random, the
    float64 arithmetic rounds): is [d] an admissible value of
